@@ -7,6 +7,7 @@ from pyvc.api import unit
 from pyvc.values import V, Undecided
 
 LEVEL = "proof"
+BOUNDED = [{"name": "theory_conformance_get_units", "script": "conformance_frames.py", "python": "vt", "tiers": ["thorough"], "args": ["--n", "60"], "timeout": 2400}]
 ASSUMPTIONS = [
     "A-REAL; V1 (unit ids unique per table); V2 (counts non-negative)",
     "the outlier models' outputs are abstracted by their contract: a row filter of the reporting frame they are given (arbitrary mask)",
